@@ -493,9 +493,86 @@ def mk_probes(tier, only=None):
             f = fn()
             p = NarrowCallProbe("ret/narrow/" + t.cid, f, ct)
             P.append(p)
+    if want("nested"):
+        P += nested_probes(fn)
     if want("variadic"):
         from c06v import variadic_probes
         P += variadic_probes(fn, full)
+    return P
+
+
+class NestedCallProbe(e2.Probe):
+    """calls inside argument lists: every call site on the path is 16-byte aligned with an empty x87 stack, and the
+    outer call receives the inner calls' results in the psABI locations."""
+
+    def __init__(self, key, fn, proto, body, expect):
+        """expect: list of (register name or ('xmm', n), inner function name) checked at the call to g_"""
+        self.key, self.fn, self.family = key, fn, "nested"
+        self.expect = expect
+        self.csrc = proto.replace("FN", fn) + "\n" + body.replace("FN", fn) + "\n"
+        self.extern_ret = {"*": "int"}
+        for nm in ("hd1_", "hd2_"):
+            self.extern_ret[nm + fn] = self.fp_model
+        self.extern_ret["hl_" + fn] = "x87"
+
+    def fp_model(self, s, ev):
+        m = s.m
+        for r in ("rax", "rcx", "rdx", "rsi", "rdi", "r8", "r9", "r10", "r11"):
+            s.regs[r] = m.fresh_bv("clob_" + r)
+        for i in range(16):
+            s.xmm[i] = m.fresh_bv("clob_xmm%d" % i)
+        s.undef_flags()
+        ev.ret_xmm0 = s.xmm[0]
+
+    def goals(self, M, finals):
+        out = []
+        for pi, s in enumerate(finals):
+            if s.dead:
+                continue
+            H = [RSP_ALIGNED(M)] + s.pc
+            calls = [e for e in s.events if e.kind == "call"]
+            byname = {}
+            for e in calls:
+                byname[(e.name or "?").rsplit("_", 1)[0]] = e
+                out.append(e2.Goal("align-%s/p%d" % ((e.name or "?").rsplit("_", 1)[0], pi), H, z3.Extract(3, 0, e.regs["rsp"]) == bv(0, 4),
+                                   note="rsp not 16-byte aligned at the call of %s" % e.name))
+                if len(e.st) != 0:
+                    out.append(e2.Goal("x87-%s/p%d" % (e.name, pi), H, z3.BoolVal(False), note="x87 depth %d at the call of %s" % (len(e.st), e.name)))
+            g = byname.get("g")
+            if g is None:
+                out.append(e2.Goal("outer/p%d" % pi, H, z3.BoolVal(False), note="outer call missing"))
+                continue
+            for loc, src in self.expect:
+                inner = byname.get(src)
+                if inner is None:
+                    out.append(e2.Goal("inner-%s/p%d" % (src, pi), H, z3.BoolVal(False), note="inner call %s missing" % src))
+                    continue
+                if isinstance(loc, tuple) and loc[0] == "xmm":
+                    got, want = g.xmm[loc[1]], inner.ret_xmm0
+                elif isinstance(loc, tuple) and loc[0] == "stack":
+                    got, want = g.state.copy().load(g.regs["rsp"] + bv(loc[1]), 8), inner.ret_rax
+                else:
+                    got, want = g.regs[loc], inner.ret_rax
+                out.append(e2.Goal("arg-%s/p%d" % (src, pi), H, got == want, note="result of %s must arrive in %s of the outer call" % (src, loc)))
+            out.append(e2.Goal("frame/p%d" % pi, H, z3.And(s.regs["rsp"] == M.RSP0 + bv(8), s.regs["rbp"] == z3.BitVec("in_rbp", 64))))
+        return out
+
+
+def nested_probes(fn):
+    P = []
+    PRO = "long g_FN(); long h1_FN(long); long h2_FN(long); long h3_FN(long); double hd1_FN(double); double hd2_FN(double); long double hl_FN(long);"
+    shapes = [
+        ("two", "long FN(long a, long b) { return g_FN(h1_FN(a), 2L, h2_FN(b)); }", [("rdi", "h1"), ("rdx", "h2")]),
+        ("three", "long FN(long a) { return g_FN(h1_FN(a), h2_FN(a), h3_FN(a)); }", [("rdi", "h1"), ("rsi", "h2"), ("rdx", "h3")]),
+        ("deep", "long FN(long a) { return g_FN(1L, h1_FN(h2_FN(h3_FN(a)))); }", [("rsi", "h1")]),
+        ("stack7", "long FN(long a) { return g_FN(1L, 2L, 3L, 4L, 5L, 6L, h1_FN(a), h2_FN(a)); }", [(("stack", 0), "h1"), (("stack", 8), "h2")]),
+        ("stack-odd", "long FN(long a) { return g_FN(1L, 2L, 3L, 4L, 5L, 6L, h1_FN(a)); }", [(("stack", 0), "h1")]),
+        ("mixed-fp", "long FN(long a, double d) { return g_FN(h1_FN(a), hd1_FN(d), h2_FN(a), hd2_FN(d)); }", [("rdi", "h1"), (("xmm", 0), "hd1"), ("rsi", "h2"), (("xmm", 1), "hd2")]),
+        ("in-expr", "long FN(long a, long b) { return a + g_FN(b * h1_FN(a), h2_FN(b) - 1 + 1); }", [("rsi", "h2")]),
+        ("ldouble-inner", "long FN(long a) { return g_FN(h1_FN(a), (long)hl_FN(a)); }", [("rdi", "h1")]),
+    ]
+    for name, body, exp in shapes:
+        P.append(NestedCallProbe("nested/" + name, fn(), PRO, body, exp))
     return P
 
 
